@@ -391,17 +391,51 @@ def metric_inputs(ctx, rng, quick):
         d = dd.mk_dendro(pairs, dd.heights_for(rng, pairs, n, mode), n, rng)
         ctx.count('metric-graph:' + name.rstrip('0123456789'))
         yield a, d, n, name
+    # the smallest admissible size: every non-empty matrix pattern on 2 nodes, unit and mixed weights
+    d2 = np.array([[0, 1, 1.0, 2]], dtype=float)
+    for bits in range(1, 16):
+        slots = [(0, 0), (0, 1), (1, 0), (1, 1)]
+        es = [slots[k] for k in range(4) if bits >> k & 1]
+        for ws in ([1.0] * len(es), [float(rng.choice([1, 2, 3, 5, 0.7])) for _ in es]):
+            ctx.count('metric-graph:n=2')
+            yield graphs.csr_from_edges(2, es, ws), d2.copy(), 2, 'n2'
+    # rank-one matrices outer(r, c): the exact mutual information of tree_sampling_divergence is 0 for degree weights
+    for _ in range(40 if quick else 600):
+        n = rng.randint(2, 4)
+        r = [rng.randint(1, 7) for _ in range(n)]
+        c = r if rng.random() < 0.4 else [rng.randint(1, 7) for _ in range(n)]
+        m = np.outer(r, c).astype(float)
+        a = sparse.csr_matrix(m)
+        pairs = dd.random_merge_order(rng, n)
+        d = dd.mk_dendro(pairs, dd.heights_for(rng, pairs, n, 'distinct'), n, rng)
+        ctx.count('metric-graph:rank-one')
+        yield a, d, n, 'rank-one'
+    # weights that are not float32 numbers (0.1, 0.7, 1/3, 3.3) or not below 2^24
+    for name, n, es, w in graphs.suite(rng, 30 if quick else 400, 2, 7, weights=[0.1, 0.7, 1.0 / 3, 3.3, float(2 ** 24 + 1), 1.0, 2.0]):
+        if not es:
+            continue
+        a = graphs.csr_from_edges(n, es, w)
+        if a.nnz == 0:
+            continue
+        pairs = dd.random_merge_order(rng, n)
+        d = dd.mk_dendro(pairs, dd.heights_for(rng, pairs, n, rng.choice(dd.HEIGHT_MODES)), n, rng)
+        ctx.count('metric-graph:non-dyadic ' + name.rstrip('0123456789'))
+        yield a, d, n, 'nondyadic-' + name
     # Paris' own dendrograms (the intended use)
     from sknetwork.hierarchy import Paris
     for name, n, es, w in graphs.suite(rng, 10 if quick else 100, 3, 9, weights=[1, 2], directed_ok=False):
         if not es:
             continue
         a = graphs.csr_from_edges(n, es, w)
+        if a.nnz == 0:
+            continue
         try:
             d = Paris().fit_predict(a)
-        except Exception:
+        except Exception as e:
+            ctx.count('metric-graph:paris-raised:' + type(e).__name__)
             continue
         if dd.enc_dendro(d) is None or dd.valid_dendro(d, n) is not None:
+            ctx.count('metric-graph:paris-dendrogram-dropped')
             continue
         ctx.count('metric-graph:paris')
         yield a, d, n, 'paris-' + name
